@@ -107,7 +107,11 @@ fn gen_case_plain(prop: &str, rng: &mut Rng, corpus: &Corpus, thorough: bool) ->
         Family::Pressure => {
             let bits = pick_bits(rng, false);
             let wrap_ok = bits <= 16 && rng.chance(1, 3);
-            let code = if rng.chance(1, 4) { gen::pressure_products(rng) } else { gen::pressure(rng, wrap_ok) };
+            let code = match rng.below(8) {
+                0 | 1 => gen::pressure_products(rng),
+                2 => gen::cyclic_products(rng),
+                _ => gen::pressure(rng, wrap_ok),
+            };
             Case { code, bits, family: fam, fixed_input: None }
         }
         Family::Roaming => {
@@ -1612,7 +1616,13 @@ pub fn hunt(args: &Args) -> i32 {
     while start.elapsed().as_secs() < args.secs {
         let code = match rng.below(10) {
             0..=2 => gen::pressure(&mut rng, false),
-            3 => gen::pressure_products(&mut rng),
+            3 => {
+                if rng.chance(1, 2) {
+                    gen::pressure_products(&mut rng)
+                } else {
+                    gen::cyclic_products(&mut rng)
+                }
+            }
             4..=5 => gen_wide(&mut rng),
             6 => gen::structured(&mut rng, false, 600),
             _ => {
